@@ -1,6 +1,6 @@
 """What is claimed per property: jobs per tier, level, notes (single source for MANIFEST.json)."""
 
-HOOK_COMMITS = ['5cf62d3', 'acf6989', 'c068a63']
+HOOK_COMMITS = ['5cf62d3', 'acf6989', 'c068a63', '0559a05']
 NOTES = ('hooks.add_only is false for one reason only: a loop contract has to stand between a loop header and its body, so each hooked '
          'loop header line "for (...) {" became "for (...)" + "EAV_VERIF_LOOP(id)" + "{" (brace moved to its own line; the `;` of one empty-bodied for loop likewise). '
          'No other existing line is changed. All counts in evidence files are measured per run. Genuine defects found and repaired are listed in '
